@@ -38,10 +38,10 @@ pub fn pair_shapes(long: &[usize]) -> Vec<(usize, usize)> {
 /// the lengths N' in {N, predecessor of N, successor of N} (cyclic in the list of long lengths),
 /// where N = max(r, c); a short left-hand shape meets every long shape. This gives 2xN * Nx3 and
 /// its transposed-flag variants, row * column, outer products, stacks, and the incompatible
-/// neighbours N +- 1 (15/16/17, 31/32/33, 63/64/65).
-pub fn partner_shapes(r: usize, c: usize, long: &[usize]) -> Vec<(usize, usize)> {
+/// neighbours N +- 1 (15/16/17, 31/32/33, 63/64/65). Thorough (`deep`): every shape of the family.
+pub fn partner_shapes(r: usize, c: usize, long: &[usize], deep: bool) -> Vec<(usize, usize)> {
     let mut v: Vec<(usize, usize)> = SMALL_PARTNERS.to_vec();
-    match long.iter().position(|&n| n == r.max(c)) {
+    match long.iter().position(|&n| n == r.max(c)).filter(|_| !deep) {
         None => {
             for &n in long {
                 v.extend(shapes_of(n));
